@@ -17,6 +17,8 @@ def check(ctx):
     ctx.run(E.rule_catch_all, "C06.X2", r)
     ctx.run(E.rule_first_error, "C06.X3", r)
     ctx.run(R.rule_cause_chain, "C06.X4", rr)
+    from .evalrules import rule_failure_path
+    ctx.run(lambda c_: rule_failure_path(c_, rr, rid_cause="C06.X4"))
     ctx.run(R.rule_no_value_on_failure, "C06.X5", rr)
     from .extra import rule_plan_records_dependencies, rule_exit_not_truthy, rule_error_path_total
     ctx.run(rule_exit_not_truthy, "C06.X5")
